@@ -164,7 +164,7 @@ func histRun(prop string) func(c histCase, o *hx.Obs) {
 		}
 		o.Class("store=%s", c.Store)
 		model := dm.CloneTree(c.Initial)
-		opts := dm.DiffOpts{ListsAsSets: !store.KeepsOrder(), IgnoreEmptyList: true}
+		opts := dm.DiffOpts{ListsAsSets: !store.KeepsOrder(), IgnoreEmptyList: true, ZeroIsUnset: store.ZeroIsUnset()}
 		deletes, afterDelete, nestedDelete, switches := 0, false, false, 0
 		for i, op := range c.Ops {
 			before := dm.CloneTree(model)
@@ -278,6 +278,10 @@ func histGen(prop string, stores []string) func(t *rapid.T) histCase {
 			o.CompoundKeys = false
 			o.Types = []string{"int8", "int32", "int64", "uint16", "decimal64", "string", "boolean"}
 		}
+		if strings.HasSuffix(store, "-struct") {
+			// plain struct fields: no case detection, and a zero field is what an unset leaf looks like
+			o.Choices, o.NestedChoice, o.Defaults, o.Presence = false, false, false, false
+		}
 		if prop == "C09" {
 			o.Choices, o.NestedChoice = true, true
 			o.MaxChildren = 4
@@ -344,8 +348,8 @@ func histGen(prop string, stores []string) func(t *rapid.T) histCase {
 
 var c18Hist = hx.Register(&hx.Check[histCase]{
 	Name: "c18-delete-replace-history",
-	Rule: "histories of 1-8 operations {upsert fragment, delete container / whole list / list entry (first, middle, last, only), replace container / entry} on reference, map-backed Reflect (map and slice lists) and map-backed Node stores; after every step the store's backing data must equal the model, a deleted entry must not be found, and at the end every entry is found under its key; non-trivial = a delete followed by a further edit, or a delete below the top level",
-	Gen:  histGen("C18", []string{"rs", "reflect-map", "reflect-slice", "node-map", "node-slice"}),
+	Rule: "histories of 1-8 operations {upsert fragment, delete container / whole list / list entry (first, middle, last, only), replace container / entry} on reference, map-backed Reflect and Node (map and slice lists) and struct-backed Reflect and Node stores; after every step the store's backing data must equal the model, a deleted entry must not be found, and at the end every entry is found under its key; non-trivial = a delete followed by a further edit, or a delete below the top level",
+	Gen:  histGen("C18", []string{"rs", "reflect-map", "reflect-slice", "node-map", "node-slice", "reflect-struct", "node-struct"}),
 	Run:  histRun("C18"),
 })
 
